@@ -15,6 +15,7 @@ import (
 	"fmt"
 	"math/rand"
 	"sync"
+	"time"
 
 	"github.com/markkurossi/mpc/ot"
 )
@@ -41,6 +42,9 @@ var c15PairUses int
 // found when a later batch changed them
 var c15Earlier []func() string
 var c15Changed string
+
+// c15Stalled is set when sender and receiver of a batch did not both return
+var c15Stalled bool
 
 // c15Batch runs one malicious-mode batch with an optional flip.  The pair is reused for many batches: the
 // sender reads every chunk before it checks, so the PRG streams stay in lock step also after an abort.
@@ -110,7 +114,14 @@ func c15Batch(rng *rand.Rand, n int, flags []bool, where string, col, row int, r
 		sent, es = p.s.Send(n, true)
 	}()
 	go func() { defer wg.Done(); er = p.r.Receive(flags, recv, true) }()
-	wg.Wait()
+	if !waitOrStall(&wg, 60*time.Second) {
+		// the two parties wait for each other: the pair is unusable, its goroutines are abandoned
+		c15Stalled = true
+		p.sc.Close()
+		p.rc.Close()
+		c15Pair = nil
+		return p, false, false, nil
+	}
 	if es != nil {
 		return p, false, false, nil
 	}
@@ -177,6 +188,10 @@ func c15Main(args []string) error {
 			res.viol("outputs-changed-by-later-batch", "%s (after a later Send on that sender)", c15Changed)
 			c15Changed = ""
 		}
+		if c15Stalled {
+			c15Stalled = false
+			res.viol("stall", "n=%d %s: sender and receiver never both return (neither abort nor finish)", ev.N, ev.Where)
+		}
 		tr.put(ev)
 		if len(res.Viol) > 0 {
 			nviol++
@@ -200,6 +215,7 @@ func c15Main(args []string) error {
 			emit(res, kosEv{Ev: "run", N: n, Where: "none", Accepted: b2i(acc), CorrOK: b2i(ok), Used: 1})
 		}
 	}
+	afterAbort := 0
 	// single flips
 	for _, n := range []int{1, 8, 9, 129} {
 		flags := choicePattern(rng, n, "rand")
@@ -236,6 +252,25 @@ func c15Main(args []string) error {
 						res.drift("n=%d: flip (column %d, row %d, %s) aborts although Delta does not select the column / the row is unused", n, col, row, where)
 					}
 					emit(res, kosEv{Ev: "run", N: n, Where: where, Col: col, Row: row, DeltaCol: dcol, Used: used, Accepted: b2i(acc), CorrOK: b2i(ok)})
+					if !acc && afterAbort < 12 {
+						// an honest execution right after an aborted one, on the same sender and receiver
+						afterAbort++
+						r2 := &Result{Case: idx, Class: "honest-after-abort", Nontrivial: true}
+						hn := 8 + rng.Intn(9)
+						_, acc2, ok2, err := c15Batch(rng, hn, choicePattern(rng, hn, "rand"), "none", 0, 0, 0, 0)
+						if err != nil {
+							return err
+						}
+						if c15Stalled {
+							c15Stalled = false
+							r2.viol("honest-abort:after-abort", "an honest malicious-mode execution never finishes (sender and receiver wait for each other) when it follows an aborted one on the same sender/receiver (n=%d before)", n)
+						} else if !acc2 {
+							r2.viol("honest-abort:after-abort", "an honest malicious-mode execution aborts when it follows an aborted one on the same sender/receiver (n=%d before)", n)
+						} else if !ok2 {
+							r2.viol("correlation:labels", "honest execution after an aborted one: outputs violate the correlation")
+						}
+						emit(r2, kosEv{Ev: "run", N: hn, Where: "none", Accepted: b2i(acc2), CorrOK: b2i(ok2), Used: 1})
+					}
 				}
 			}
 		}
@@ -257,9 +292,16 @@ func c15Main(args []string) error {
 	}
 	// batches beyond one block of the challenge stream (1024 rows): flips in late payload rows, in the last row, in
 	// the row where a block begins, in columns on both sides of the 64-bit word boundary
-	for _, n := range []int{1100, 2049} {
+	for _, n := range []int{1024, 1100, 2048, 2049} {
 		flags := choicePattern(rng, n, "rand")
-		for _, row := range []int{1023, 1024, 1025, n - 1, 1024 + rng.Intn(n-1024)} {
+		rows := []int{0, n / 2, n - 600, n - 1, 1023}
+		if n > 1025 {
+			rows = append(rows, 1024, 1025, 1024+rng.Intn(n-1024))
+		}
+		for _, row := range rows {
+			if row < 0 || row >= n {
+				continue
+			}
 			for _, col := range []int{0, 1, 63, 64, 127, rng.Intn(128), rng.Intn(128), rng.Intn(128)} {
 				if nviol >= 6 {
 					return nil
